@@ -164,7 +164,7 @@ def run(ctx):
             seen = []
             bound = monitors.step_bound([SubsequenceAlignment._best_matches.__code__], 400 * (c + 5) * (r + 5))
             with bound:
-              for m in a.kbest_matches(**args):
+              for m in (a.kbest_matches(k, overlap, minlength, maxlength) if it % 3 == 0 else a.kbest_matches(**args)):
                   seg = [int(x) for x in m.segment]
                   val = float(m.value)
                   rec = dict(idx=int(m.idx), value=val, segment=seg)
